@@ -305,4 +305,401 @@ def item_npy_body(repo, out):
     out.append('Definition cs_npy_order_c : bool := %s.' % ('true' if order_c else 'false'))
 
 
-ITEMS = [item_chunk_names, item_dask_names, item_npy_body]
+# ---------------------------------------------------------------------------------------------------
+# generate_chunks: the whole body is matched statement by statement against a template; the holes (argument
+# normalisation, comparison operators, rounding directions) are translated to Gallina and USED by Model/ChunksGenPy.v
+
+_GC_TEMPLATE = """
+if dims_to_split is None:
+    dims_to_split = range(len(shape))
+if max_dim_elements is None:
+    max_dim_elements = {}
+ndim = len(shape)
+dims_to_split = [__NORM__ for dim in dims_to_split]
+limits = {}
+for dim, limit in max_dim_elements.items():
+    dim = __NORM__
+    limits[dim] = __MERGE__
+max_dim_elements = limits
+dim_elements = list(shape)
+for i in dims_to_split:
+    if i in max_dim_elements and __CAP__:
+        if power_of_two:
+            dim_elements[i] = _floor_power_of_two(max_dim_elements[i])
+        else:
+            dim_elements[i] = max_dim_elements[i]
+max_elements = max_chunk_size / np.dtype(dtype).itemsize
+for dim in dims_to_split:
+    cur_elements = int(np.prod(dim_elements))
+    if __BREAK__:
+        break
+    trg_elements_real = dim_elements[dim] * max_elements / cur_elements
+    if __SMALL__:
+        trg_elements = 1
+    elif power_of_two:
+        trg_elements = _floor_power_of_two(trg_elements_real)
+    else:
+        pieces = int(np.__R1__(shape[dim] / trg_elements_real))
+        trg_elements = int(np.__R2__(shape[dim] / pieces))
+    dim_elements[dim] = trg_elements
+return da.core.blockdims_from_blockshape(shape, dim_elements)
+"""
+
+
+def _is_hole(name):
+    return isinstance(name, str) and name.startswith('__') and name.endswith('__') and len(name) > 4
+
+
+def _match(actual, templ, holes, what):
+    """Structural equality of two asts; `Name('__X__')` in the template captures the actual subtree as hole X and an
+    attribute / identifier spelled `__X__` captures the actual identifier."""
+    if isinstance(templ, ast.Name) and _is_hole(templ.id):
+        key = templ.id.strip('_')
+        d = ast.dump(actual)
+        if key in holes and ast.dump(holes[key]) != d:
+            raise TranslateError('%s: the two occurrences of %s differ' % (what, key))
+        holes[key] = actual
+        return
+    if type(actual) is not type(templ):
+        raise TranslateError('%s: expected %s, found %s (line %s)' % (what, type(templ).__name__, type(actual).__name__,
+                                                                      getattr(actual, 'lineno', '?')))
+    if isinstance(templ, ast.AST):
+        for f in templ._fields:
+            if f in ('ctx', 'type_comment', 'kind'):
+                continue
+            a, t = getattr(actual, f, None), getattr(templ, f, None)
+            if _is_hole(t):
+                if not isinstance(a, str):
+                    raise TranslateError('%s: identifier expected for %s' % (what, t))
+                holes[t.strip('_')] = a
+                continue
+            _match(a, t, holes, what)
+    elif isinstance(templ, list):
+        if len(actual) != len(templ):
+            raise TranslateError('%s: %d statements / items where %d are expected (near line %s)' % (
+                what, len(actual), len(templ), getattr(actual[0], 'lineno', '?') if actual else '?'))
+        for a, t in zip(actual, templ):
+            _match(a, t, holes, what)
+    elif actual != templ:
+        raise TranslateError('%s: %r where %r is expected' % (what, actual, templ))
+
+
+_CMP = {ast.Lt: '<?', ast.LtE: '<=?', ast.Eq: '=?'}
+_CMP_SWAP = {ast.Gt: '<?', ast.GtE: '<=?'}
+
+
+def _zexpr(node, env, what, special=None):
+    """Integer expression over the names in env -> Gallina term of type Z."""
+    if special is not None:
+        r = special(node)
+        if r is not None:
+            return r
+    if isinstance(node, ast.Name) and node.id in env:
+        return env[node.id]
+    if isinstance(node, ast.Constant) and isinstance(node.value, int) and not isinstance(node.value, bool):
+        return coq_Z(node.value)
+    if isinstance(node, ast.UnaryOp) and isinstance(node.op, ast.USub):
+        return '(- %s)' % _zexpr(node.operand, env, what, special)
+    if isinstance(node, ast.BinOp) and type(node.op) in (ast.Add, ast.Sub, ast.Mult):
+        op = {ast.Add: '+', ast.Sub: '-', ast.Mult: '*'}[type(node.op)]
+        return '(%s %s %s)' % (_zexpr(node.left, env, what, special), op, _zexpr(node.right, env, what, special))
+    if isinstance(node, ast.IfExp):
+        return '(if %s then %s else %s)' % (_bexpr(node.test, env, what, special), _zexpr(node.body, env, what, special),
+                                            _zexpr(node.orelse, env, what, special))
+    if (isinstance(node, ast.Call) and isinstance(node.func, ast.Name) and node.func.id in ('min', 'max')
+            and len(node.args) == 2 and not node.keywords):
+        return '(Z.%s %s %s)' % (node.func.id, _zexpr(node.args[0], env, what, special), _zexpr(node.args[1], env, what, special))
+    raise TranslateError('%s: unsupported integer expression %s' % (what, ast.unparse(node)))
+
+
+def _fold_bool(fn, parts):
+    # Generated.v does not import Bool: no `&&` / `||` notations
+    r = parts[-1]
+    for x in reversed(parts[:-1]):
+        r = '(%s %s %s)' % (fn, x, r)
+    return r
+
+
+def _bexpr(node, env, what, special=None):
+    if isinstance(node, ast.Compare):
+        terms = [node.left] + list(node.comparators)
+        parts = []
+        for a, op, b in zip(terms, node.ops, terms[1:]):
+            x, y = _zexpr(a, env, what, special), _zexpr(b, env, what, special)
+            if type(op) in _CMP:
+                parts.append('(%s %s %s)' % (x, _CMP[type(op)], y))
+            elif type(op) in _CMP_SWAP:
+                parts.append('(%s %s %s)' % (y, _CMP_SWAP[type(op)], x))
+            elif isinstance(op, ast.NotEq):
+                parts.append('(negb (%s =? %s))' % (x, y))
+            else:
+                raise TranslateError('%s: unsupported comparison in %s' % (what, ast.unparse(node)))
+        return _fold_bool('andb', parts)
+    if isinstance(node, ast.BoolOp):
+        return _fold_bool('andb' if isinstance(node.op, ast.And) else 'orb',
+                          [_bexpr(v, env, what, special) for v in node.values])
+    if isinstance(node, ast.UnaryOp) and isinstance(node.op, ast.Not):
+        return '(negb %s)' % _bexpr(node.operand, env, what, special)
+    raise TranslateError('%s: unsupported condition %s' % (what, ast.unparse(node)))
+
+
+def item_generate_chunks(repo, out):
+    rel = 'katdal/chunkstore.py'
+    tree = _parse(repo, rel)
+    fn = [n for n in tree.body if isinstance(n, ast.FunctionDef) and n.name == 'generate_chunks']
+    if len(fn) != 1:
+        raise TranslateError('generate_chunks not found')
+    fn = fn[0]
+    a = fn.args
+    if ([x.arg for x in a.args] != ['shape', 'dtype', 'max_chunk_size', 'dims_to_split', 'power_of_two', 'max_dim_elements']
+            or [ast.unparse(d) for d in a.defaults] != ['None', 'False', 'None'] or a.vararg or a.kwarg or a.kwonlyargs
+            or fn.decorator_list):
+        raise TranslateError('generate_chunks: unexpected signature / defaults')
+    body = [s for s in fn.body if not (isinstance(s, ast.Expr) and isinstance(s.value, ast.Constant))]
+    holes = {}
+    _match(body, ast.parse(_GC_TEMPLATE).body, holes, 'generate_chunks')
+    fp = [n for n in tree.body if isinstance(n, ast.FunctionDef) and n.name == '_floor_power_of_two']
+    if len(fp) != 1:
+        raise TranslateError('_floor_power_of_two not found')
+    fbody = [s for s in fp[0].body if not (isinstance(s, ast.Expr) and isinstance(s.value, ast.Constant))]
+    if ([x.arg for x in fp[0].args.args] != ['x'] or len(fbody) != 1
+            or ast.dump(fbody[0]) != ast.dump(ast.parse('return 2 ** int(np.floor(np.log2(x)))').body[0])):
+        raise TranslateError('_floor_power_of_two is not `return 2 ** int(np.floor(np.log2(x)))`')
+    w = 'generate_chunks'
+    # argument normalisation
+    out.append('Definition cs_gc_norm_axis (ndim dim : Z) : Z := %s.'
+               % _zexpr(holes['NORM'], {'ndim': 'ndim', 'dim': 'dim'}, w + ' (axis normalisation)'))
+    get = ast.dump(ast.parse('limits.get(dim, limit)', mode='eval').body)
+    out.append('Definition cs_gc_merge_limit (limit old : Z) : Z := %s.'
+               % _zexpr(holes['MERGE'], {'limit': 'limit'}, w + ' (limit merge)',
+                        special=lambda n: 'old' if ast.dump(n) == get else None))
+    # per-dimension cap: max_dim_elements[i] ? shape[i]
+    m, s = ast.dump(ast.parse('max_dim_elements[i]', mode='eval').body), ast.dump(ast.parse('shape[i]', mode='eval').body)
+    out.append('Definition cs_gc_cap_applies (m s : Z) : bool := %s.'
+               % _bexpr(holes['CAP'], {}, w + ' (cap condition)',
+                        special=lambda n: 'm' if ast.dump(n) == m else ('s' if ast.dump(n) == s else None)))
+    # budget test: cur_elements ? max_elements, both sides multiplied by the (positive) denominator md of max_elements
+    c = holes['BREAK']
+    if not (isinstance(c, ast.Compare) and len(c.ops) == 1
+            and sorted(ast.unparse(x) for x in [c.left] + c.comparators) == ['cur_elements', 'max_elements']):
+        raise TranslateError('generate_chunks: the break condition does not compare cur_elements with max_elements')
+    out.append('Definition cs_gc_budget_met (cur_md mn : Z) : bool := %s.'
+               % _bexpr(c, {'cur_elements': 'cur_md', 'max_elements': 'mn'}, w + ' (break condition)'))
+    # trg_elements_real ? <int>, with trg_elements_real = n / dn (dn > 0): constants are scaled by dn
+    c = holes['SMALL']
+    if not (isinstance(c, ast.Compare) and len(c.ops) == 1):
+        raise TranslateError('generate_chunks: unexpected `trg_elements_real < 1` test')
+    sides = [c.left] + c.comparators
+    kinds = ['t' if ast.unparse(x) == 'trg_elements_real' else
+             ('c' if isinstance(x, ast.Constant) and isinstance(x.value, int) and not isinstance(x.value, bool) else '?') for x in sides]
+    if sorted(kinds) != ['c', 't']:
+        raise TranslateError('generate_chunks: the small-target test does not compare trg_elements_real with an integer')
+    out.append('Definition cs_gc_trg_small (n dn : Z) : bool := %s.'
+               % _bexpr(c, {'trg_elements_real': 'n'}, w + ' (small target)',
+                        special=lambda n: '(%s * dn)' % coq_Z(n.value) if isinstance(n, ast.Constant) else None))
+    for key, name in (('R1', 'cs_gc_pieces_ceil'), ('R2', 'cs_gc_trg_ceil')):
+        if holes[key] not in ('ceil', 'floor'):
+            raise TranslateError('generate_chunks: np.%s is neither ceil nor floor' % holes[key])
+        out.append('Definition %s : bool := %s.' % (name, 'true' if holes[key] == 'ceil' else 'false'))
+
+
+# ---------------------------------------------------------------------------------------------------
+# _prune_chunks (whole body pinned; the two drop conditions are translated and USED by Model/Chunks.v), the offset shim
+# and the block -> slices mapping of _put_map_blocks / the getter of get_dask_array (pinned)
+
+_PRUNE_TEMPLATE = """
+chunks = [list(c) for c in chunks]
+shape = [sum(c) for c in chunks]
+index = list(da.slicing.normalize_index(index, shape))
+if not all(isinstance(idx, slice) and idx.step in (1, None) for idx in index):
+    raise IndexError(__MSG__)
+offset = list(offset) if offset else [0] * len(shape)
+for axis in range(len(shape)):
+    if index[axis] == slice(None):
+        continue
+    start, stop, step = index[axis].indices(shape[axis])
+    assert step == 1
+    start_chunk = 0
+    while start_chunk < len(chunks[axis]) - 1 and __FRONT__:
+        c = chunks[axis][start_chunk]
+        offset[axis] += c
+        start -= c
+        stop -= c
+        shape[axis] -= c
+        start_chunk += 1
+    stop_chunk = len(chunks[axis])
+    while stop_chunk > start_chunk + 1 and __BACK__:
+        stop_chunk -= 1
+        c = chunks[axis][stop_chunk]
+        shape[axis] -= c
+    chunks[axis] = chunks[axis][start_chunk:stop_chunk]
+    if not chunks[axis]:
+        chunks[axis] = (0,)
+    index[axis] = slice(start, stop)
+chunks = tuple(tuple(c) for c in chunks)
+index = tuple(index)
+offset = tuple(offset)
+return chunks, index, offset
+"""
+
+_SHIM_TEMPLATE = """
+def func_with_offset(array_name, slices, *args, **kwargs):
+    offset_slices = tuple(slice(s.start + i, s.stop + i) for (s, i) in zip(slices, offset))
+    return func(array_name, offset_slices, *args, **kwargs)
+return func_with_offset
+"""
+
+_PUT_BLOCK_TEMPLATE = """
+put = store.put_chunk_noraise
+if offset:
+    put = _add_offset_to_slices(put, offset)
+slices = tuple(slice(*loc) for loc in block_info[0]["array-location"])
+success = put(array_name, slices, chunk)
+singleton_shape = chunk.ndim * (1,)
+return np.full(singleton_shape, success)
+"""
+
+
+def _nodoc(body):
+    """Statements without docstrings (also those of nested function definitions)."""
+    out = []
+    for st in body:
+        if isinstance(st, ast.Expr) and isinstance(st.value, ast.Constant) and isinstance(st.value.value, str):
+            continue
+        if isinstance(st, ast.FunctionDef):
+            st.body = _nodoc(st.body)
+        out.append(st)
+    return out
+
+
+def _module_func(tree, name):
+    fn = [n for n in tree.body if isinstance(n, ast.FunctionDef) and n.name == name]
+    if len(fn) != 1:
+        raise TranslateError('%s not found' % name)
+    return fn[0]
+
+
+def item_prune_and_shims(repo, out):
+    rel = 'katdal/chunkstore.py'
+    tree = _parse(repo, rel)
+    fp = _module_func(tree, '_prune_chunks')
+    if [a.arg for a in fp.args.args] != ['chunks', 'index', 'offset'] or [ast.unparse(d) for d in fp.args.defaults] != ['()']:
+        raise TranslateError('_prune_chunks: unexpected signature')
+    holes = {}
+    _match(_nodoc(fp.body), ast.parse(_PRUNE_TEMPLATE).body, holes, '_prune_chunks')
+    c1 = ast.dump(ast.parse('chunks[axis][start_chunk]', mode='eval').body)
+    out.append('Definition cs_prune_front_drops (c start : Z) : bool := %s.'
+               % _bexpr(holes['FRONT'], {'start': 'start'}, '_prune_chunks (first loop)',
+                        special=lambda n: 'c' if ast.dump(n) == c1 else None))
+    c2 = ast.dump(ast.parse('chunks[axis][stop_chunk - 1]', mode='eval').body)
+    sh = ast.dump(ast.parse('shape[axis]', mode='eval').body)
+    out.append('Definition cs_prune_back_drops (c shape stop : Z) : bool := %s.'
+               % _bexpr(holes['BACK'], {'stop': 'stop'}, '_prune_chunks (second loop)',
+                        special=lambda n: 'c' if ast.dump(n) == c2 else ('shape' if ast.dump(n) == sh else None)))
+    fs = _module_func(tree, '_add_offset_to_slices')
+    if [a.arg for a in fs.args.args] != ['func', 'offset']:
+        raise TranslateError('_add_offset_to_slices: unexpected signature')
+    _match(_nodoc(fs.body), ast.parse(_SHIM_TEMPLATE).body, {}, '_add_offset_to_slices')
+    fb = _module_func(tree, '_put_map_blocks')
+    if ([a.arg for a in fb.args.args] != ['chunk', 'block_info', 'store', 'array_name', 'offset']
+            or [ast.unparse(d) for d in fb.args.defaults] != ['None', 'None', 'None', '()']):
+        raise TranslateError('_put_map_blocks: unexpected signature')
+    _match(_nodoc(fb.body), ast.parse(_PUT_BLOCK_TEMPLATE).body, {}, '_put_map_blocks')
+    # get_dask_array: the shim is installed right after the pruning block iff any(offset); the getter passes the slices on
+    cls = _class(tree, 'ChunkStore', rel)
+    fg = _func(cls, 'get_dask_array', rel)
+    prune = [i for i, n in enumerate(fg.body) if isinstance(n, ast.If) and ast.unparse(n.test) == 'index']
+    want = ast.dump(ast.parse('if any(offset):\n    getter = _add_offset_to_slices(getter, offset)').body[0])
+    if len(prune) != 1 or prune[0] + 1 >= len(fg.body) or ast.dump(fg.body[prune[0] + 1]) != want:
+        raise TranslateError('get_dask_array: `if any(offset): getter = _add_offset_to_slices(getter, offset)` does not '
+                             'follow the pruning block')
+    if not ast.unparse(fg.body[-1]) == 'return array[index]':
+        raise TranslateError('get_dask_array does not end with `return array[index]`')
+    ga = _func(_class(tree, '_ArrayLikeGetter', rel), '__getitem__', rel)
+    gbody = _nodoc(ga.body)
+    if len(gbody) != 1 or ast.unparse(gbody[0]) != 'return self.getter(self.array_name, slices, self.dtype, **self.kwargs)':
+        raise TranslateError('_ArrayLikeGetter.__getitem__ does not pass the slices on to the getter unchanged')
+    gi = _func(_class(tree, '_ArrayLikeGetter', rel), '__init__', rel)
+    if not any(ast.unparse(n) == 'self.shape = tuple((sum(c) for c in chunks))' for n in gi.body):
+        raise TranslateError('_ArrayLikeGetter.__init__: shape is not tuple(sum(c) for c in chunks)')
+
+
+# ---------------------------------------------------------------------------------------------------
+# chunk_metadata, put_chunk_noraise, get_chunk_or_default and the `errors` dispatch of get_dask_array (pinned)
+
+_CM_TEMPLATE = """
+try:
+    shape = tuple(s.stop - s.start for s in slices)
+except (TypeError, AttributeError):
+    raise TypeError(__M1__)
+if not all([s.step in (1, None) for s in slices]):
+    raise TypeError(__M2__)
+chunk_name = cls.join(array_name, cls.chunk_id_str(slices))
+if chunk is not None and chunk.shape != shape:
+    raise BadChunk(__M3__)
+if chunk is not None and chunk.dtype.hasobject:
+    raise BadChunk(__M4__)
+if dtype is not None and np.dtype(dtype).hasobject:
+    raise BadChunk(__M5__)
+return chunk_name, shape
+"""
+
+_NORAISE_TEMPLATE = """
+try:
+    self.put_chunk(array_name, slices, chunk)
+except ChunkStoreError as err:
+    return err
+else:
+    return None
+"""
+
+_DEFAULT_TEMPLATE = """
+try:
+    return self.get_chunk(array_name, slices, dtype)
+except ChunkNotFound:
+    chunk_name, shape = self.chunk_metadata(array_name, slices)
+    return np.full(shape, default_value, dtype)
+"""
+
+
+def item_chunk_metadata(repo, out):
+    """chunk_metadata (order of the validation steps: TypeError for the slices before BadChunk for shape / objects),
+    put_chunk_noraise and get_chunk_or_default (absorbs ChunkNotFound only) -- pinned, nothing emitted."""
+    rel = 'katdal/chunkstore.py'
+    tree = _parse(repo, rel)
+    cls = _class(tree, 'ChunkStore', rel)
+    fm = _func(cls, 'chunk_metadata', rel)
+    if ([a.arg for a in fm.args.args] != ['cls', 'array_name', 'slices', 'chunk', 'dtype']
+            or [ast.unparse(d) for d in fm.args.defaults] != ['None', 'None']):
+        raise TranslateError('chunk_metadata: unexpected signature')
+    _match(_nodoc(fm.body), ast.parse(_CM_TEMPLATE).body, {}, 'chunk_metadata')
+    fn = _func(cls, 'put_chunk_noraise', rel)
+    _match(_nodoc(fn.body), ast.parse(_NORAISE_TEMPLATE).body, {}, 'put_chunk_noraise')
+    fd = _func(cls, 'get_chunk_or_default', rel)
+    if [ast.unparse(d) for d in fd.args.defaults] != ['0']:
+        raise TranslateError('get_chunk_or_default: default_value is not 0')
+    _match(_nodoc(fd.body), ast.parse(_DEFAULT_TEMPLATE).body, {}, 'get_chunk_or_default')
+    # get_dask_array: how `errors` selects the getter
+    fg = _func(cls, 'get_dask_array', rel)
+    ifs = [n for n in fg.body if isinstance(n, ast.If) and ast.unparse(n.test).startswith('errors in')]
+    if len(ifs) != 1:
+        raise TranslateError('get_dask_array: the `errors` dispatch was not found')
+    node = ifs[0]
+    holes = {}
+    _match(node, ast.parse('''
+if errors in ('placeholder', 'dryrun'):
+    getter = self.get_chunk_or_placeholder
+    getter_kwargs['dryrun'] = errors == 'dryrun'
+elif errors == 'raise':
+    getter = self.get_chunk
+elif isinstance(errors, str):
+    raise ValueError(__MSG__)
+else:
+    getter = self.get_chunk_or_default
+    getter_kwargs['default_value'] = errors
+''').body[0], holes, 'get_dask_array (errors dispatch)')
+    if [ast.unparse(d) for d in fg.args.defaults] != ['()', '()', '0']:
+        raise TranslateError('get_dask_array: defaults of offset / index / errors changed')
+
+
+ITEMS = [item_chunk_names, item_dask_names, item_npy_body, item_generate_chunks, item_prune_and_shims, item_chunk_metadata]
